@@ -291,9 +291,20 @@ def check_immutability(ctx, rng):
         base.replace(strict_coercion=not cfg.get("strict_coercion", True)),
         base.replace(debug_trail=DebugTrail.DISABLE if cfg.get("debug_trail") is not DebugTrail.DISABLE else DebugTrail.ALL),
     ]
-    for d in derived:
-        use(d, item)
-        use(d, rng.choice(POOL))
+    # a clone is a retort of its own: warmed original or not, it answers like a FRESH retort with the same options and recipe
+    # (seeded change: clones shared the call cache of the original, recursive closures came from the relative)
+    ext = [marker, loader(str, lambda x: ("S", x)), loader(M1, lambda x: "m1"), name_mapping(map={"a": "A!"})]
+    sc2 = not cfg.get("strict_coercion", True)
+    dt2 = DebugTrail.DISABLE if cfg.get("debug_trail") is not DebugTrail.DISABLE else DebugTrail.ALL
+    twins = [make(cfg, extra_recipe=ext), make({**cfg, "strict_coercion": sc2}), make({**cfg, "debug_trail": dt2})]
+    for which, d, twin in zip(("extend", "replace-strict_coercion", "replace-debug_trail"), derived, twins):
+        for probe in (item, rng.choice(POOL), rng.choice([p for p in POOL if "Rec" in p[0] or "Holder" in p[0]] or POOL)):
+            got, want = use(d, probe), use(twin, probe)
+            ctx.count("clone_vs_fresh_twin")
+            if not all(same(x, y) for x, y in zip(got, want)):
+                ctx.violation(f"clone-differs-from-fresh-twin:{which}", f"{probe[0]} [{cfg}]: base.{which}(...) after the base had served {item[0]} answers {got!r:.200}, "
+                              f"a fresh retort with the same options and recipe {want!r:.200}", {"item": item[0], "probe": probe[0], "cfg": repr(cfg)})
+                break
     after = use(base, item)
     fresh = use(make(cfg), item)
     ctx.evaluated(("immutability", item[0], repr(cfg)))
